@@ -205,7 +205,7 @@ def storKey (d : Dec.D) : Int := (if d.neg then -1 else 1) * (d.coeff : Int)
 
 theorem stor_cmp (a b : Dec.D) (ha : storDom a) (hb : storDom b) : Dec.cmp a b = compare (storKey a) (storKey b) := by
   unfold storDom at ha hb
-  simp [Dec.cmp, storKey, ha, hb]
+  simp [Dec.cmp, Dec.cmpAligned, storKey, ha, hb]
 
 theorem C14_lawful_storage (n : Str) : Lawful (Members.storage n) storDom :=
   lawful_of_key_on (m := Members.storage n) (κ := Int) storDom storKey
